@@ -315,9 +315,11 @@ func (rg RadialGradient) Layout(width, height pr.Float) backend.GradientLayout {
 		if rg.repeating {
 			// Add vector lengths to first position until positive
 			vectorLength := positions[len(positions)-1] - positions[0]
-			offset := vectorLength * pr.Fl(1+math.Floor(float64(-positions[0]/vectorLength)))
-			for i, p := range positions {
-				positions[i] = p + offset
+			if vectorLength > 0 { // else: rendered as a solid color by spread.RadialGradient
+				offset := vectorLength * pr.Fl(1+math.Floor(float64(-positions[0]/vectorLength)))
+				for i, p := range positions {
+					positions[i] = p + offset
+				}
 			}
 		} else {
 			// only keep colors with position >= 0, interpolate if needed
